@@ -88,6 +88,10 @@ def take(arr, idx, axes):
 def far_split(err, scale, tol, what, qty, viols, errs, extra):
     """judge err <= tol*scale elementwise; far-field elements (scale < 1e-9 max) reported under qty_farfield"""
     smax = float(scale.max()) if scale.size else 0.0
+    # C11 states no tolerance: 2x the accuracy bound of C04 relative to the Schwarz scale, plus a double-precision
+    # absolute floor (1e-15 of the natural scale) so that elements in the denormal range (Schwarz factor underflowed
+    # to 0, values ~1e-280) are not judged on their rounding noise
+    scale = scale + (1e-15 / tol) * max(smax, 1e-2)
     rel = err / (scale + 1e-300)
     near = scale >= c04.FAR * smax
     for mask, q in ((near, qty), (~near, qty + "_farfield")):
